@@ -194,6 +194,39 @@ SpellingRefinement(u, spellings) ==
 
 BitCfgWellFormed(u) == WellFormedCfg(BitCfg(u))
 
+(***************************************************************************)
+(* C14: a custom basis is a pure relabelling.  u0 = the default-basis       *)
+(* configuration with the signature and start index of u.  Phi maps the    *)
+(* blade named n1 n2 .. nk in u to  (parity of sorting the names) * the     *)
+(* ascending blade with the same generator names in u0.                      *)
+(***************************************************************************)
+DefaultOf(u) == [mode |-> "sig", p |-> 0, q |-> 0, r |-> 0, sig |-> UserSignature(u), start |-> StartIndex(u), basis |-> <<>>]
+\* blade B of m (custom)  ->  bitmask in m0 (default): same generator NAMES
+PhiBlade(m, m0, B) == BinOf({GenPos(m0, CanonName(m, B)[i]) : i \in DOMAIN CanonName(m, B)})
+\* orientation of the custom name relative to the default (ascending) name
+PhiSign(m, m0, B) == Orient(NameSpelling(m0, CanonName(m, B)))
+RelabelIsIsomorphism(u) ==
+  LET m == UC(u)
+      m0 == UC(DefaultOf(u))
+      c == BitCfgM(m)
+      c0 == BitCfgM(m0) IN
+  /\ {PhiBlade(m, m0, B) : B \in Blades(m.d)} = Blades(m.d)
+  /\ \A A, B \in Blades(m.d) :
+        RefSign(c, A, B) * PhiSign(m, m0, BXor(m.d, A, B))
+          = PhiSign(m, m0, A) * PhiSign(m, m0, B) * RefSign(c0, PhiBlade(m, m0, A), PhiBlade(m, m0, B))
+        /\ PhiBlade(m, m0, BXor(m.d, A, B)) = BXor(m.d, PhiBlade(m, m0, A), PhiBlade(m, m0, B))
+\* two configurations describe the same algebra for the user: same metric per generator name,
+\* same blade names in the same order
+SameAlgebraModel(ua, ub) ==
+  LET ma == UC(ua) mb == UC(ub) IN
+  ma.usig = mb.usig /\ ma.start = mb.start /\ ma.names = mb.names /\ ma.order = mb.order
+\* same metric, spellings and order of the blades at bit level; only the start index (the digits used
+\* in the names of a default basis) may differ.  The repository's own tests treat such algebras as
+\* equal (tests/test_kingdon.py::test_start_index), so neither outcome is demanded for them.
+SameUpToStartIndex(ua, ub) ==
+  LET ca == BitCfg(ua) cb == BitCfg(ub) IN
+  ca.d = cb.d /\ ca.sig = cb.sig /\ ca.spell = cb.spell /\ ca.order = cb.order /\ (ua.basis = <<>>) = (ub.basis = <<>>)
+
 \* the number of distinct type numbers equals the number of key sets (names are injective
 \* in the key SET -- and only in the set: this is the deviation C09 turns on)
 TypeNumberInjectiveOnSets(u) ==
